@@ -131,10 +131,14 @@ impl Watch {
             } else if p.topic.is_empty() {
                 return Expect::Refuse(true);
             }
-            if p.qos > 0 && !connected && m.st == St::Connecting && m.persistent && m.rm_send.is_some() && !either {
-                // a server already knows the peer's Receive Maximum; how many queued publishes
-                // it admits before its own CONNACK is not pinned: accepted, or refused for that reason
-                return Expect::EitherRm;
+            if p.qos > 0 && !connected && m.st == St::Connecting && m.persistent && !either {
+                // a server already knows the peer's Receive Maximum from the CONNECT: the publishes
+                // it queues before its own CONNACK are exchanges of this connection and count
+                if let Some(mx) = m.rm_send {
+                    if m.queued_connecting >= mx as usize {
+                        return Expect::Refuse(true);
+                    }
+                }
             }
             if p.qos > 0 && connected {
                 if let Some(mx) = m.rm_send {
@@ -212,6 +216,9 @@ impl Watch {
                 let props: &[&'static str] = if oversize_sent {
                     // whatever else forbids the packet, it went out larger than the peer allows
                     &["C14", "C11"]
+                } else if p.kind == PUBLISH && p.v == 5 && p.qos > 0 && st_before == St::Connecting && self.m.persistent && self.m.rm_send.map_or(false, |mx| self.m.queued_connecting >= mx as usize) {
+                    // queued beyond the Receive Maximum the CONNECT announced
+                    &["C12", "C11"]
                 } else if p.kind == PUBLISH && p.v == 5 && self.m.st == St::Connected && n_send > 0 {
                     // which rule was broken decides the property
                     if self.m.mps_send.map_or(false, |l| wire::encode(p, self.idw).len() > l as usize) {
@@ -473,6 +480,9 @@ impl Watch {
                 return false;
             }
             let cn = if connected { self.m.conn_no } else { 0 };
+            if self.m.st == St::Connecting {
+                self.m.queued_connecting += 1;
+            }
             self.m.out.push(Out { id, qos: p.qos, stage: if p.qos == 1 { Stage::AwaitPuback } else { Stage::AwaitPubrec }, conn: cn, born: cn });
             // the id handed over with release_packet_id_if_send_error
             if connected {
